@@ -677,8 +677,11 @@ def replay(path):
     env.update(r.get("env") or {})
     cmd = [exe] + [a for a in r["mon_args"]] + ["--seed", str(r["seed"]), "--from", str(r["idx"]), "--to", str(r["idx"] + 1)]
     print(" ".join(cmd))
-    p = subprocess.run(cmd, env=env)
-    return 1 if p.returncode else 0
+    p = subprocess.run(cmd, env=env, stdout=subprocess.PIPE, text=True, errors="replace")
+    sys.stdout.write(p.stdout)
+    reproduced = p.returncode != 0 or any(l.startswith("F\t") for l in p.stdout.splitlines())
+    print("replay: %s" % ("violation reproduced" if reproduced else "no violation on this tree"))
+    return 1 if reproduced else 0
 
 def write_manifest():
     import props
